@@ -1335,7 +1335,7 @@ func (in *Interp) rangeIter(fr *frame, x value, t types.Type) iter {
 					it.order = append(it.order, i)
 				}
 			}
-			if in.run != nil && in.run.mapOrder && len(it.order) > 1 {
+			if in.run != nil && in.run.mapOrder && len(it.order) > 1 && len(it.order) <= in.run.mapOrderMax {
 				it.order = in.permute(it.order)
 			}
 		}
